@@ -12,7 +12,7 @@ from common import Finding, log, seed
 from props import UnitResult
 from tv_units import NPROC, MAX_REPLAYS, save_replay
 
-WORKERS = {"point": jitsmt.work_point}
+WORKERS = {"point": jitsmt.work_point, "fslice": jitsmt.work_fslice}
 
 
 def norm(words):
@@ -58,12 +58,18 @@ class JitSmtUnit:
             for p in jitgen.assemble(scs):
                 r.inconclusive.append(p)
             scs = [s for s in scs if s.code]
-            runs = jitsmt.real_runs(scs, kind, 4 if tier == "quick" else 12)
             items = []
-            for s in scs:
-                vv = [(v[:s.nvars], o, t) for v, o, t, _, _ in runs.get(s.sid, [])]
-                items.append((s, vv))
-            chunks = list(T.chunks(items, 4))
+            if kind == "fslice":
+                runs = jitsmt.real_runs_fslice(scs, 2 if tier == "quick" else 6)
+                for s in scs:
+                    items.append((s, [(v, o) for v, o, _, _, _ in runs.get(s.sid, [])]))
+            else:
+                runs = jitsmt.real_runs(scs, kind, 4 if tier == "quick" else 12)
+                for s in scs:
+                    items.append((s, [(v[:s.nvars], o, t) for v, o, t, _, _ in runs.get(s.sid, [])]))
+            # heavy scenarios first, one per task, so the pool stays balanced
+            items.sort(key=lambda it: -len(it[0].ops) - (40 if any(k in it[0].name for k in ("Mix", "Rand", "Round", "live12")) else 0))
+            chunks = [[it] for it in items]
             by_sid = {s.sid: s for s in scs}
             with mp.Pool(NPROC) as pool:
                 for out, secs in pool.imap_unordered(WORKERS[kind], chunks):
@@ -74,6 +80,7 @@ class JitSmtUnit:
                         r.queries += 1 + x.get("validated", 0)
                         r.extra["scenarios"] = r.extra.get("scenarios", 0) + 1
                         r.extra["model_validations"] = r.extra.get("model_validations", 0) + x.get("validated", 0)
+                        r.extra["model_validations_undecided"] = r.extra.get("model_validations_undecided", 0) + x.get("validation_unknown", 0)
                         r.extra["paths"] = r.extra.get("paths", 0) + x.get("paths", 0)
                         for b in x.get("validation_bad", [])[:2]:
                             r.inconclusive.append("x86 model validation failed for %s: %s" % (sc.name, b))
@@ -109,7 +116,13 @@ class JitSmtUnit:
             return
         model = x.get("model") or {}
         vec = [model.get(i, 0x3F800000) for i in x.get("inputs", [])]
-        runs = jitsmt.real_runs([sc], kind, 24).get(sc.sid, [])
+        if kind == "fslice":
+            n = x.get("size", 8) or 8
+            cols = [vec[i * n:(i + 1) * n] for i in range(sc.nvars)]
+            vec = [w for c in cols for w in (c + c)[:8]]
+            runs = jitsmt.real_runs_fslice([sc], 24).get(sc.sid, [])
+        else:
+            runs = jitsmt.real_runs([sc], kind, 24).get(sc.sid, [])
         extra = jitsmt.real_runs_vec(sc, kind, [vec]) if vec else []
         bad = None
         for v, out, tr, vm_out, vm_tr in extra + runs:
